@@ -30,8 +30,69 @@ OkXfers(xs) == LET f == SelectSeq(xs, NotFunds) IN [i \in 1..Len(f) |-> XKey(f[i
 EngCore(E) == [cfg |-> E.cfg, st |-> E.st, pauser |-> E.pauser, whitelist |-> E.whitelist,
                tmp |-> E.tmp, pos |-> E.pos, vmap |-> E.vmap]
 
+(***************************************************************************)
+(* Query conformance: the answer of a query of the real contracts against   *)
+(* the specification's query operators (the oracles of the properties).     *)
+(***************************************************************************)
+QNum(e, x) == IF Bad(x) THEN ~e.res.ok ELSE e.res.ok /\ e.res.val = x
+QRec(e, r) == IF ~r.ok THEN ~e.res.ok ELSE e.res.ok /\ e.res.val = r.val
+QueryOK(S, e) ==
+  LET c == e.tx.c
+      q == e.tx.m
+      a == e.tx.a
+  IN IF c \in DOMAIN S.vamm
+     THEN LET vm == S.vamm[c]
+          IN CASE q = "input_amount"  -> QNum(e, InputPrice(vm.cfg.D, a.dir, a.amount, vm.st.x, vm.st.y))
+               [] q = "output_amount" -> QNum(e, OutputPrice(vm.cfg.D, a.dir, a.amount, vm.st.x, vm.st.y))
+               [] q = "input_price"   -> QNum(e, QInputPrice(vm, a.dir, a.amount))
+               [] q = "output_price"  -> QNum(e, QOutputPrice(vm, a.dir, a.amount))
+               [] q = "input_twap"    -> LET x == InputTwap(vm, S.blk.t, a.dir, a.amount) IN x = OVER \/ QNum(e, x)
+               [] q = "output_twap"   -> LET x == OutputTwap(vm, S.blk.t, a.dir, a.amount) IN x = OVER \/ QNum(e, x)
+               [] q = "spot_price"    -> QNum(e, Spot(vm))
+               [] q = "twap_price"    -> LET x == TwapPrice(vm, S.blk.t, a.interval) IN x = OVER \/ QNum(e, x)
+               [] q = "underlying_price" -> QNum(e, OraclePrice(S, c))
+               [] q = "underlying_twap_price" -> QNum(e, OracleTwap(S, c, a.interval))
+               [] q = "calc_fee" -> e.res.ok /\ e.res.val.toll_fee = CalcFee(vm, a.amount).toll
+                                            /\ e.res.val.spread_fee = CalcFee(vm, a.amount).spread
+               [] q = "is_over_spread_limit" -> QRec(e, IsOverSpread(vm, OraclePrice(S, c)))
+               [] q = "is_over_fluctuation_limit" -> QRec(e, IsOverFluct(vm, S.blk.h, a.dir, a.amount))
+               [] OTHER -> TRUE
+     ELSE IF c = "engine" /\ "vamm" \in DOMAIN a /\ a.vamm \in DOMAIN S.vamm /\ "trader" \in DOMAIN a /\ a.trader \in ConfTraders
+     THEN LET p == S.eng.pos[a.vamm][a.trader]
+          IN CASE q = "margin_ratio" -> LET r == MarginRatio(S, a.vamm, a.trader) IN r.over \/ QRec(e, r)
+               [] q = "free_collateral" -> IF ~p.exists THEN TRUE
+                                           ELSE LET r == FreeCollateral(S, a.vamm, a.trader) IN r.over \/ QRec(e, r)
+               [] q = "position" -> IF ~p.exists THEN ~e.res.ok
+                                    ELSE e.res.ok /\ e.res.val.size = p.size /\ e.res.val.margin = p.margin
+                                         /\ e.res.val.notional = p.notional /\ e.res.val.block_number = p.blk
+                                         /\ e.res.val.last_updated_premium_fraction = p.lupf
+               [] q = "unrealized_pnl" -> LET r == PnL(S, a.vamm, p, IF a.opt = "spot_price" THEN "spot" ELSE a.opt)
+                                          IN r.over \/ (IF ~r.ok THEN ~e.res.ok
+                                                        ELSE e.res.ok /\ e.res.val.position_notional = r.notional
+                                                             /\ e.res.val.unrealized_pnl = r.pnl)
+               [] q = "position_with_funding_payment" ->
+                    ~p.exists \/ (e.res.ok /\ e.res.val.margin = MarginWithFunding(S, a.vamm, p))
+               [] OTHER -> TRUE
+     ELSE IF c = "engine" /\ q = "cumulative_premium_fraction" /\ a.vamm \in DOMAIN S.vamm
+     THEN QNum(e, Cpf(S, a.vamm)) \/ (e.res.ok /\ e.res.val = Cpf(S, a.vamm))
+     ELSE IF c = "ifund"
+     THEN CASE q = "is_vamm" -> e.res.ok /\ e.res.val.is_vamm = IsRegistered(S, a.vamm)
+            [] q = "get_all_vamm" -> IF ~S.ifund.has_list THEN ~e.res.ok ELSE e.res.ok /\ e.res.val.vamm_list = S.ifund.vamms
+            [] q = "get_vamm_status" -> a.vamm \in DOMAIN S.vamm => (e.res.ok /\ e.res.val.vamm_status = S.vamm[a.vamm].st.open)
+            [] OTHER -> TRUE
+     ELSE IF c = "feed" /\ S.feed.kind = "real"
+     THEN CASE q = "get_price" -> e.res.ok /\ e.res.val.price = RealGetPrice(S.feed, a.key).price
+                                           /\ e.res.val.round_id = RealGetPrice(S.feed, a.key).id
+            [] q = "get_previous_price" ->
+                 LET r == RealGetPreviousPrice(S.feed, a.key, a.n)
+                 IN IF ~r.ok THEN ~e.res.ok ELSE e.res.ok /\ e.res.val.price = r.r.price /\ e.res.val.round_id = r.r.id
+            [] q = "get_twap_price" -> QNum(e, RealTwap(S.feed, a.key, S.blk.t, a.interval))
+            [] OTHER -> TRUE
+     ELSE TRUE
+
 DriftOf(S, e, T) ==
-  IF e.kind = "block"
+  IF e.kind = "query" THEN (IF QueryOK(S, e) THEN {} ELSE {"query"})
+  ELSE IF e.kind = "block"
   THEN IF AdvanceBlock(S, e.tx.a.dh, e.tx.a.dt) = T THEN {} ELSE {"block"}
   ELSE IF ~Modelled(S, e) THEN {}
   ELSE LET r == RunTx(S, e.tx, e.fault)
